@@ -46,7 +46,7 @@ import (
 )
 
 func TestC11FullRun(t *testing.T) {
-	vstat.Rule("C11", "whole command: a case is dkg.Run on every member of a drawn cluster (n in 3..MAXN, threshold 2..n, 1..3 validators, FROST / pedersen / default algorithm, lock format v1.6..latest, drawn deposit amounts, drawn start stagger) over loopback TCP and a local relay; judged on the files the members wrote; non-trivial when the ceremony succeeded and (threshold < n or validators > 1)")
+	vstat.Rule("C11", "whole command: a case is dkg.Run on every member of a drawn cluster (n in 3..MAXN, threshold 2..n, 1..4 validators, FROST / pedersen / default algorithm, lock format v1.6..latest, drawn deposit amounts, drawn start stagger) over loopback TCP and a local relay; judged on the files the members wrote; non-trivial when the ceremony succeeded and (threshold < n or validators > 1)")
 	vstat.Assume("C11 whole command: runs on wall-clock time over loopback TCP; a ceremony that ends with an error is counted and skipped (the property speaks of successful ceremonies)")
 	maxN := vstat.EnvInt("VERIF_C11_FULL_MAXN", 5)
 	log.InitConsoleForT(t, zapcore.AddSync(io.Discard))
@@ -71,7 +71,7 @@ func TestC11FullRun(t *testing.T) {
 func fullRun(t *testing.T, rt *rapid.T, ctx context.Context, relayAddr string, maxN int) bool {
 	n := rapid.IntRange(3, maxN).Draw(rt, "n")
 	th := rapid.IntRange(2, n).Draw(rt, "t")
-	v := rapid.IntRange(1, 3).Draw(rt, "validators")
+	v := rapid.IntRange(1, 4).Draw(rt, "validators")
 	algo := rapid.SampledFrom([]string{"frost", "pedersen", "default"}).Draw(rt, "algo")
 	version := rapid.SampledFrom([]string{"", "v1.10.0", "v1.9.0", "v1.8.0", "v1.7.0", "v1.6.0"}).Draw(rt, "version")
 	amountsKind := rapid.IntRange(0, 2).Draw(rt, "amounts")
